@@ -1152,6 +1152,73 @@ theorem merge_spec {cmp : K → K → Int} (hc : Lawful cmp)
           simp only [height_node] at c
           exact ⟨t, by simp [merge, c, es, ex, ey, et], bt, ot, gt⟩
 
+/-- more fuel never changes an answer that was already produced -/
+theorem customizedUnion_mono (cmp : K → K → Int) (f : K → V → V → Option V) :
+    ∀ (fuel : Nat) (a b : Tree K V) (r : Option (Tree K V)),
+      customizedUnion cmp f fuel a b = some r → customizedUnion cmp f (fuel + 1) a b = some r := by
+  intro fuel
+  induction fuel with
+  | zero => intro a b r h; simp [customizedUnion] at h
+  | succ n ih =>
+    intro a b r h
+    cases a with
+    | empty => simpa [customizedUnion] using h
+    | leaf k v => cases b <;> simpa [customizedUnion] using h
+    | node h1 k1 v1 l1 r1 =>
+      cases b with
+      | empty => simpa [customizedUnion] using h
+      | leaf k v => simpa [customizedUnion] using h
+      | node h2 k2 v2 l2 r2 =>
+        rw [customizedUnion] at h ⊢
+        by_cases c : h1 ≥ h2
+        · simp only [c, if_true] at h ⊢
+          cases hs : split cmp (Tree.node h2 k2 v2 l2 r2) k1 with
+          | none => simpa [hs] using h
+          | some tr =>
+            obtain ⟨x, d, y⟩ := tr
+            simp only [hs] at h ⊢
+            cases h1' : customizedUnion cmp f n l1 x with
+            | none => simp [h1'] at h
+            | some o1 =>
+              rw [ih _ _ _ h1']
+              simp only [h1'] at h
+              cases o1 with
+              | none => simpa using h
+              | some t1 =>
+                simp only at h ⊢
+                cases h2' : customizedUnion cmp f n r1 y with
+                | none => simp [h2'] at h
+                | some o2 =>
+                  rw [ih _ _ _ h2']
+                  simpa [h2'] using h
+        · simp only [c, if_false] at h ⊢
+          cases hs : split cmp (Tree.node h1 k1 v1 l1 r1) k2 with
+          | none => simpa [hs] using h
+          | some tr =>
+            obtain ⟨x, d, y⟩ := tr
+            simp only [hs] at h ⊢
+            cases h1' : customizedUnion cmp f n x l2 with
+            | none => simp [h1'] at h
+            | some o1 =>
+              rw [ih _ _ _ h1']
+              simp only [h1'] at h
+              cases o1 with
+              | none => simpa using h
+              | some t1 =>
+                simp only at h ⊢
+                cases h2' : customizedUnion cmp f n y r2 with
+                | none => simp [h2'] at h
+                | some o2 =>
+                  rw [ih _ _ _ h2']
+                  simpa [h2'] using h
+
+theorem customizedUnion_mono_le (cmp : K → K → Int) (f : K → V → V → Option V) (fuel fuel' : Nat)
+    (hle : fuel ≤ fuel') (a b : Tree K V) (r : Option (Tree K V))
+    (h : customizedUnion cmp f fuel a b = some r) : customizedUnion cmp f fuel' a b = some r := by
+  induction hle with
+  | refl => exact h
+  | step _ ih => exact customizedUnion_mono cmp f _ a b r ih
+
 /-- `t` represents the finite map `m`: invariant + same graph. -/
 def Rel (t : Tree K V) (m : K → Option V) : Prop :=
   Bal t ∧ Ordered t ∧ ∀ q w, (q, w) ∈ abs t ↔ m q = some w
